@@ -510,6 +510,20 @@ theorem proxy_read_diag (m : MRef) (rd : Nat → R) : m.diag.read rd ≈ᵥ VExp
   · simp [VRef.read, MRef.read, MRef.diag, VExp.size, MExp.size1, MExp.size2]
   · simp only [VRef.read, MRef.read, VExp.get, MExp.get, proxy_index_diag]
 
+theorem proxy_read_columns (m : MRef) (rd : Nat → R) (s e : Nat) :
+    (m.columns s e).read rd ≈ₘ MExp.trans (MExp.rows (MExp.trans (m.read rd)) s e) := by
+  refine ⟨?_, ?_, fun i j _ _ => ?_⟩
+  · simp [MRef.read, MRef.columns, MRef.rows, MRef.range, MRef.trans, MExp.size1, MExp.size2]
+  · simp [MRef.read, MRef.columns, MRef.rows, MRef.range, MRef.trans, MExp.size1, MExp.size2]
+  · simp only [MRef.read, MExp.get, proxy_index_columns]
+
+/-- nested: `subrange(column(A,j),s,t)` read from memory is the sub-range of column `j` of the matrix read from memory -/
+theorem proxy_read_range_column (m : MRef) (rd : Nat → R) (j s t : Nat) :
+    ((m.column j).range s t).read rd ≈ᵥ VExp.range (VExp.row (MExp.trans (m.read rd)) j) s t := by
+  refine ⟨?_, fun k _ => ?_⟩
+  · simp [VRef.read, VRef.range, VExp.size]
+  · simp only [VRef.read, MRef.read, VExp.get, MExp.get, proxy_index_vrange, proxy_index_column]
+
 end ProxyRead
 
 /-- the column sweep (the element order of the column-major kernels) is an admissible order -/
